@@ -1794,10 +1794,10 @@ func BoundsCheckFuncs(c *Ctx, rule string, fns []*types.Func) {
 			}
 		}
 	}
-	c.Assumptions = appendUnique(c.Assumptions, "bounds engine: int/uint/int64/uint64 index arithmetic is assumed not to wrap; struct fields never assigned outside composite literals in the loaded module are read as stable")
+	c.Assumptions = bndAppendUnique(c.Assumptions, "bounds engine: int/uint/int64/uint64 index arithmetic is assumed not to wrap; struct fields never assigned outside composite literals in the loaded module are read as stable")
 }
 
-func appendUnique(ss []string, s string) []string {
+func bndAppendUnique(ss []string, s string) []string {
 	for _, x := range ss {
 		if x == s {
 			return ss
